@@ -425,3 +425,76 @@ namespace vd
         return res;
     }
 }
+
+// ---- front: run one textual front end on each text twice (fresh state each time), report result digest ----
+namespace vd
+{
+    static size_t digest(const std::string& s) { return std::hash<std::string>()(s); }
+    static std::string log_digest()
+    {
+        std::string d;
+        for (auto& r : g_log) { d += std::to_string(r.level) + ":" + std::to_string(r.code) + ":" + std::to_string(r.line) + ":" + std::to_string(r.col) + ";"; }
+        return d;
+    }
+    static std::unique_ptr<vm> g_front_vm;
+    js::val mode_front(const js::val& req)
+    {
+        std::string fe = req["fe"].str();
+        auto out = js::val::array();
+        auto& texts = req["texts"];
+        vmconf none; none.ops = "none";
+        vmconf full; full.ops = "full";
+        if (fe == "sqf" || fe == "assembly") { if (!g_front_vm) g_front_vm = make_vm(0, full); }
+        for (size_t i = 0; i < texts.size(); i++)
+        {
+            std::string text = texts[i].str();
+            auto o = js::val::object();
+            std::string d[2];
+            bool okv[2] = { false, false };
+            int nerr[2] = { 0, 0 };
+            for (int run = 0; run < 2; run++)
+            {
+                g_log.clear();
+                fileio::pathinfo pi(std::string("in.sqf"), std::string("in.sqf"));
+                std::string res;
+                bool ok = false;
+                if (fe == "pp")
+                {
+                    auto v = make_vm(0, none);
+                    auto pp = v->rt->parser_preprocessor().preprocess(*v->rt, text, pi);
+                    ok = pp.has_value(); if (ok) res = *pp;
+                }
+                else if (fe == "sqf")
+                {
+                    auto set = g_front_vm->rt->parser_sqf().parse(*g_front_vm->rt, text, pi);
+                    ok = set.has_value();
+                    if (ok) { auto l = js::val::array(); list_set(*set, l); res = js::dump(l); }
+                }
+                else if (fe == "assembly")
+                {
+                    sqf::parser::assembly::parser p(*g_front_vm->logger);
+                    auto set = p.parse(*g_front_vm->rt, text, pi);
+                    ok = set.has_value();
+                    if (ok) { auto l = js::val::array(); list_set(*set, l); res = js::dump(l); }
+                }
+                else if (fe == "config")
+                {
+                    auto v = make_vm(0, none);
+                    ok = v->rt->parser_config().parse(v->rt->confighost(), text, pi);
+                    res = std::to_string(v->rt->confighost().m_containers.size());
+                }
+                else throw std::runtime_error("unknown front end " + fe);
+                okv[run] = ok;
+                for (auto& r : g_log) if (r.level <= 1) nerr[run]++;
+                d[run] = (ok ? "1" : "0") + std::to_string(digest(res)) + "|" + log_digest();
+            }
+            o.set("ok", okv[0]);
+            o.set("nerr", nerr[0]);
+            o.set("same", d[0] == d[1]);
+            out.push(o);
+        }
+        auto res = js::val::object();
+        res.set("items", out);
+        return res;
+    }
+}
